@@ -139,6 +139,16 @@ func (e *encodeState) encode(v ugo.Object, opts encOpts) {
 	objectEncoder(v)(e, v, opts)
 }
 
+// encodeElem encodes a container element; a value that has no JSON
+// representation is written as null so that the document stays well formed.
+func (e *encodeState) encodeElem(v ugo.Object, opts encOpts) {
+	n := e.Len()
+	e.encode(v, opts)
+	if e.Len() == n {
+		e.WriteString("null")
+	}
+}
+
 type encOpts struct {
 	// quoted causes primitive fields to be encoded inside JSON strings.
 	quoted bool
@@ -346,7 +356,7 @@ func mapEncoder(e *encodeState, v ugo.Object, opts encOpts) {
 		}
 		e.string(kv, opts.escapeHTML)
 		e.WriteByte(':')
-		e.encode(m[kv], opts)
+		e.encodeElem(m[kv], opts)
 	}
 	e.WriteByte('}')
 	e.ptrLevel--
@@ -414,7 +424,7 @@ func arrayEncoder(e *encodeState, v ugo.Object, opts encOpts) {
 		if i > 0 {
 			e.WriteByte(',')
 		}
-		e.encode(arr[i], opts)
+		e.encodeElem(arr[i], opts)
 	}
 	e.WriteByte(']')
 	e.ptrLevel--
